@@ -571,6 +571,8 @@ pub fn lexlayout_main(args: &[String]) {
     let mut groups: Vec<(String, Vec<(String, String)>)> = Vec::new();
     for (id, _kind, src) in split_cases(&text) {
         let (g, v) = id.split_once('.').map(|(a, b)| (a.to_string(), b.to_string())).unwrap_or((id.clone(), "base".to_string()));
+        // a variant named `*_nonl` is the text without its final line feed(s) (the case-file format always ends a case with one)
+        let src = if v.ends_with("_nonl") { src.trim_end_matches(|c| c == '\n' || c == '\r').to_string() } else { src };
         let view = match std::panic::catch_unwind(|| parse_src(&src).map(|p| strip_spans(&format!("{:?}", p.declarations)))) {
             Ok(Ok(s)) => s,
             Ok(Err(e)) => format!("ERR {e}"),
